@@ -15,7 +15,7 @@ PROP = "C16"
 
 def run(ctx):
     shs = c15.shards(ctx.quick, mode="c16", solvers=("maxmin", "bmf"))
-    shs, res, stages, complete = L.explore(ctx, shs, increments=1 if ctx.quick else 2, reserve=45 if ctx.quick else 60)
+    shs, res, stages, complete = L.explore(ctx, shs, increments=1 if ctx.quick else 2, reserve=60 if ctx.quick else 60)
     if any(r is None for r in res):
         common.log("C16: not even the first bound completed")
         raise SystemExit(2)
